@@ -4,6 +4,8 @@ import MCHap.Properties.C19
 #print axioms MCHap.C19.depths_eq_spec_partial
 #print axioms MCHap.C19.depths_ne_spec_witness
 #print axioms MCHap.C19.specDepth_monotone_in_filters
+#print axioms MCHap.C19.specDepth_filter_effect
+#print axioms MCHap.C19.indOk_iff
 #print axioms MCHap.C19.keepAllele_iff
 #print axioms MCHap.C19.listed_iff_thresholds
 #print axioms MCHap.C19.emitted_iff_two
